@@ -3,7 +3,7 @@
 Engine: E5 (production SFTPServer._check_file behind a production SFTPClient / SFTPFile.check,
 socketpair link).  A case = a served file (aperiodic content: SHAKE-256 stream of a generated seed,
 so a block hashed at the wrong position gives a different digest) + a program on the file's handles:
-either 1-4 queries (algorithm list, offset, length, block_size >= 256) on one read-only handle, or a *handle
+either 1-4 queries (algorithm list, offset, length, block_size >= 256 or 0) on one read-only handle, or a *handle
 history*: the file opened r, r+ or w+ (unbuffered SFTPFile, no prefetch) plus a second handle on the same
 file, and 4-10 operations check / read(n) / seek / write(data) on either handle.  Offsets of checks and seeks
 may be given relative to the handle's own past: ("end", k, d) = where the k-th most recent request on that
@@ -21,7 +21,12 @@ unbuffered, non-pipelined file has reached the server when it returns, flush() i
 the model is compared with the file on disk at the end of the case; what read() returns is not asserted here):
     end    = size if length == 0 or offset + length > size else offset + length
     reply == concat(H(content[p : min(p + block, end)]) for p = offset, offset+block, ... < end)
-  * the statement quantifies over block sizes of at least 256 only: 0 and 1..255 are not generated;
+  * the statement quantifies over block sizes of at least 256: 1..255 are not generated.  Block size 0 is the documented "one hash
+    of the entire segment" (SFTPFile.check's default): the block IS the requested segment - `length` bytes, or what follows the
+    offset when length is 0 - so the reply must be the single hash of content[offset:end] whenever that block is at least 256 bytes
+    long (in particular for a length >= 256 that runs past EOF, however few bytes are left before EOF).  When the segment is
+    shorter than 256 bytes the block size is below 256 and any reply is accepted (counted: the server refuses these with
+    "Block size too small", also check(alg) with all defaults on a file shorter than 256 bytes);
   * H = the requested algorithm; for a list any *supported* member is accepted (which one the server
     prefers is not part of the statement), unsupported names in the list are skipped;
   * empty range (offset at/after EOF): an empty digest string or an error reply are both accepted -
@@ -55,8 +60,9 @@ RULE = (
     "short-read plan for the served handle while a check-file request is served (none | at most k bytes per read, k in 256..65535 | every "
     "m-th read, by hash of (offset, length), returns a random or a tiny part of what is available - never 0 bytes before EOF); "
     "queries via SFTPFile.check: algorithm in {md5, sha1, lists with both orders and an "
-    "unsupported name}, offset/length from {0,1,255,256,257,65535,65536,65537,131072,size-1,size,size+1, random, 2^40}, block size >= 256 from "
-    "{256,257,512,4096,65535,65536,65537,131072,size,size+1,random}; oracle = hashlib per block over the bytes the file holds at that moment "
+    "unsupported name}, offset/length from {0,1,255,256,257,65535,65536,65537,131072,size-1,size,size+1, size-600..size+2, random, 2^40}, block size >= 256 from "
+    "{256,257,512,4096,65535,65536,65537,131072,size,size+1,random} or 0 (= one block: the requested segment; judged when that segment is >= 256 bytes, "
+    "with lengths inside the file, zero and past EOF, also with fewer than 256 bytes left before EOF); oracle = hashlib per block over the bytes the file holds at that moment "
     "(model = initial bytes + the writes issued; checked against the disk at the end), range clipped at EOF when "
     "length is 0 or runs past it; promptness = server read-count/livelock guard. non-trivial = some block of the range is longer than 65536 bytes "
     "(spans the server's read chunk) or the requested length runs past EOF or there are >= 2 blocks with a partial last one, or a non-empty range is "
@@ -93,6 +99,7 @@ _offset = st.one_of(
     st.tuples(st.just("frac"), st.integers(0, 300)),
     st.tuples(st.just("abs"), st.just(0)),
     st.tuples(st.just("abs"), st.integers(0, 300)),
+    st.tuples(st.just("size"), st.integers(-600, 2)),  # in the last few hundred bytes of the file (less than one minimal block left)
 )
 # lengths additionally relative to what remains after the offset: ("rem", per-mille of the remainder) | ("rem+", bytes beyond EOF)
 _length = st.one_of(
@@ -112,6 +119,9 @@ _block = st.one_of(
     st.tuples(st.just("size"), st.integers(-1, 1)),
     st.tuples(st.just("frac"), st.integers(100, 1000)),
     st.tuples(st.just("frac"), st.integers(300, 1000)),
+    # block size 0 = the documented "one hash of the entire segment": the block is the requested segment itself
+    st.just(("whole", 0)),
+    st.just(("whole", 0)).map(lambda v: v),
 )
 _query = st.tuples(_algs, _offset, _length, _block)
 
@@ -290,20 +300,28 @@ def _server_stack(env):
     return "\n".join(out)
 
 
-def _one_query(ctx, jcase, env, guard, fh, content, q, qi, hsuffix="", hwhere=""):
+def _one_query(ctx, jcase, env, guard, fh, content, q, qi, hsuffix="", hwhere="", b_sent=None):
     """Returns 'ok' | 'known' | 'dead' (session unusable) | 'late' (backstop hit; caller re-tries).
-    ``hsuffix``: root-cause refinement of digest buckets for queries on a handle with a history."""
+    ``hsuffix``: root-cause refinement of digest buckets for queries on a handle with a history.
+    ``b_sent``: the block size put on the wire when it differs from the effective one in ``q`` (0 = "the whole segment")."""
     from paramiko.ssh_exception import SSHException
 
     size = len(content)
     algs, o, l, b = q
-    blocks = _blocks(size, o, l, b)
+    if b_sent is None:
+        b_sent = b
+    whole = b_sent == 0
+    if whole:
+        hsuffix += ":block-size-0"
+    # block size 0 with a segment (the block) shorter than 256 bytes: not a "block size of at least 256 bytes" - any reply will do
+    outside = whole and b < 256
+    blocks = _blocks(size, o, l, max(b, 1))
     span = (blocks[-1][1] - o) if blocks else 0
     guard.begin(span, checking=True)
     exc = got = None
     t0 = time.time()
     try:
-        got = fh.check(algs, o, l, b)
+        got = fh.check(algs, o, l, b_sent)
     except (IOError, OSError, SSHException, EOFError) as e:
         exc = e
     elapsed = time.time() - t0
@@ -312,7 +330,7 @@ def _one_query(ctx, jcase, env, guard, fh, content, q, qi, hsuffix="", hwhere=""
     if n_short:
         hsuffix += ":short-reads"
         hwhere += " [served handle returned %d short reads before EOF, plan %r]" % (n_short, guard.short)
-    where = "query %d: check(%r, offset=%d, length=%d, block_size=%d) on a %d-byte file%s" % (qi, algs, o, l, b, size, hwhere)
+    where = "query %d: check(%r, offset=%d, length=%d, block_size=%d) on a %d-byte file%s" % (qi, algs, o, l, b_sent, size, hwhere)
     past_eof = l > 0 and o + l > size
     # ---- no prompt answer
     log_abort = [x for x in env.server_log if x[1] == "read-loop-abort"]
@@ -337,6 +355,9 @@ def _one_query(ctx, jcase, env, guard, fh, content, q, qi, hsuffix="", hwhere=""
     if not blocks:
         if exc is None and got != b"":
             ctx.violation("digest", "empty-range-nonempty-reply" + hsuffix, jcase, "%s: range is empty, reply has %d bytes" % (where, len(got)))
+        return "ok"
+    if outside:
+        ctx.count("block-size-0:segment-shorter-than-256:%s" % ("answered" if exc is None else "refused"))
         return "ok"
     names = [a for a in algs.split(",") if a in SUPPORTED]
     if not names:
@@ -525,7 +546,15 @@ def execute(ctx, case, _retry=0):
                 l = max(0, cur - o) + op[4][1]
             else:
                 l = _resolve(op[4], cur)
-            b = _resolve(op[5], cur, 256)
+            if op[5][0] == "whole":
+                # block size 0: one block = the requested segment (length bytes, or what follows the offset when length is 0)
+                b_sent, b = 0, (l if l > 0 else max(0, cur - o))
+                classes.add("block-size-0")
+                classes.add("block-size-0:" + ("length-zero" if l == 0 else ("length-past-eof" if o + l > cur else "length-inside-file")))
+                if 0 < cur - o < 256:
+                    classes.add("block-size-0:less-than-256-bytes-before-eof")
+            else:
+                b_sent = b = _resolve(op[5], cur, 256)
             geo_nt, blocks = _classify_query(classes, cur, o, l, b, algs)
             nontrivial = nontrivial or geo_nt
             # history of this handle / of the file at the moment of the query
@@ -551,7 +580,7 @@ def execute(ctx, case, _retry=0):
                     nontrivial = True
                 hsuffix = ":after(%s)%s%s" % (";".join(kinds[-2:]) or "-", "@previous-end" if o in ends else "", ",file-modified" if modified else "")
                 hwhere = " [mode %s, handle %d; %s]" % (mode, h, ", ".join(trace[-6:]))
-            r = _one_query(ctx, jcase, env, guard, hs.fh, bytes(model), (algs, o, l, b), qi, hsuffix, hwhere)
+            r = _one_query(ctx, jcase, env, guard, hs.fh, bytes(model), (algs, o, l, b), qi, hsuffix, hwhere, b_sent)
             trace.append("h%d.check(%d,%d,%d)" % (h, o, l, b))
             qi += 1
             if blocks:
@@ -610,7 +639,7 @@ def _explore_in_slices(ctx, strategy, body, total, shrink, slice_size=400):
 
 def run(ctx):
     ctx.set_budget(70, 850)
-    _explore_in_slices(ctx, case_st, lambda c: execute(ctx, c), ctx.scale(1500, 30000), shrink=True, slice_size=1500)
+    _explore_in_slices(ctx, case_st, lambda c: execute(ctx, c), ctx.scale(1400, 30000), shrink=True, slice_size=1400)
 
 
 def replay(ctx, case):
